@@ -2,6 +2,7 @@
 Require Import ZArith List Bool String.
 Import ListNotations.
 Require Import LV.CalFile.NumText LV.CalFile.NumTextProofs LV.CalFile.CalFileModel LV.CalFile.CalFileProofs.
+Require Import LV.CalFile.CalSaveModel LV.CalFile.CalSaveProofs LV.CalFile.CalSaveExamples.
 Require Import LV.Gen.SaveBufGen LV.CalFile.SaveBufFacts.
 Open Scope Z_scope.
 
@@ -42,15 +43,113 @@ Theorem cal_buffers_fit_unfixed_refuted :
 Proof. exact unfixed_cfg_refuted. Qed.
 Print Assumptions cal_buffers_fit_unfixed_refuted.
 
-(* emit_parse_terms_partial: for every type and all dimensions 1..4 the type allows, the document
-   entry written by the emitter from the term vector (cell i labelled i) is parsed back to the same
-   vector, every cell defined.  Partial: labelled vectors and dimensions up to 4 (exhaustive
-   computation); arbitrary term values follow by parametricity, which is not proved. *)
-Theorem emit_parse_terms_partial : forall t mr mc,
-  In t all_types -> In (mr, mc) (dims_upto 4) -> dims_fit t mr mc = true -> roundtrip_ok t mr mc = true.
-Proof. exact emit_parse_terms_bounded. Qed.
-Print Assumptions emit_parse_terms_partial.
+(* ------------------------------------------------------------------------------------------------
+   The round trip on the models: CalFile/CalSaveModel.v (vnacal_save.c as coded) against
+   CalFile/CalFileModel.v (vnacal_load.c as coded).
 
-Theorem emit_parse_terms_satisfiable : In UE14 all_types /\ In (3, 2) (dims_upto 4) /\ dims_fit UE14 3 2 = true.
-Proof. exact ue14_3x2_in_range. Qed.
-Print Assumptions emit_parse_terms_satisfiable.
+   Number-text layer (trusted base, NOT proved here; the Section hypotheses below state what C99
+   printf / sscanf / strtod and two library functions guarantee; they are exercised on every run by
+   the ties of checks/C07.py and discharged for a toy number type in CalFile/CalSaveExamples.v):
+     int_rt       sscanf("%d %c") reads back what sprintf("%d") wrote, for every int
+     cx_accepted  parse_complex accepts the text add_complex wrote
+     name_text    the scalar node of the name carries the name
+     type_rt      vnacal_name_to_type(vnacal_type_to_name(t)) = t
+     real_rt      rd p x is, by definition, what sscanf("%lf") returns for the text add_double wrote
+     cx_rt        the value parse_complex computes from add_complex's text is (rd p re, rd p im)
+     num_rt       rd p x = x when p = VNACAL_MAX_PRECISION ("%a") or p >= 17 (finite values; the
+                  sign of a zero is outside the model, see docs/design_C07.md)
+   ------------------------------------------------------------------------------------------------ *)
+Section NumberText.
+  Variable num : Type.
+  Variable num0 : num.
+  Variable sc_int : Z -> scalar.
+  Variable sc_real : Z -> num -> scalar.
+  Variable sc_cx : Z -> (num * num) -> scalar.
+  Variable sc_name : string -> scalar.
+  Variable sc_type : ctype -> scalar.
+  Hypothesis int_rt : forall n, - 2147483648 <= n <= 2147483647 -> s_int (sc_int n) = Some n.
+  Hypothesis cx_accepted : forall p z, s_cx (sc_cx p z) = true.
+  Hypothesis name_text : forall n, s_text (sc_name n) = n.
+  Hypothesis type_rt : forall t, s_type (sc_type t) = Some t.
+  Variable cls : num -> rclass.
+  Variable rd : Z -> num -> num.
+  Variable val_cx : string -> option (num * num).
+  Hypothesis real_rt : forall p x, s_real (sc_real p x) = cls (rd p x).
+  Hypothesis cx_rt : forall p z, val_cx (s_text (sc_cx p z)) = Some (rdc num rd p z).
+  Hypothesis num_rt : forall p x, exact_prec max_precision p = true -> rd p x = x.
+
+  (* save_load_doc: for EVERY container that satisfies the invariants of a vnacal_t the loader insists
+     on (wf_container: per used slot 0 <= rows, columns, dimensions fit the type, ports^2 <= INT_MAX/4,
+     frequency count fits int, the exported property sub-trees are importable, the frequencies as
+     written at fprecision read back non-negative and strictly ascending; names of used slots
+     distinct) - every type, any rows x columns, any number of frequencies, any slot vector with
+     holes, any precisions - the loader model accepts the document the saver model builds and
+     returns exactly the calibrations of the used slots in slot order: names, types, dimensions,
+     frequency count, the property sub-tree unchanged, z0 and every error-term cell as the text the
+     saver wrote for that cell (loaded_cal). *)
+  Theorem save_load_doc : forall v : container num, wf_container num sc_real v ->
+    load save_vline (Some (save_doc num num0 sc_int sc_real sc_cx sc_name sc_type v))
+    = Ok (map (loaded_cal num num0 sc_real sc_cx (v_fprec num v) (v_dprec num v)) (live num (v_slots num v))).
+  Proof. exact (load_save_doc num num0 sc_int sc_real sc_cx sc_name sc_type int_rt cx_accepted name_text type_rt). Qed.
+
+  (* cal_roundtrip: the same with values.  cal_equiv fp dp k l: same name, type, rows, columns,
+     frequency count, property sub-tree; z0, every frequency and every cell [term][findex] of l
+     read (strtod) as rd p of the corresponding value of k. *)
+  Theorem cal_roundtrip : forall v : container num, wf_container num sc_real v ->
+    exists cals, load save_vline (Some (save_doc num num0 sc_int sc_real sc_cx sc_name sc_type v)) = Ok cals /\
+                 Forall2 (cal_equiv num num0 cls rd val_cx (v_fprec num v) (v_dprec num v)) (live num (v_slots num v)) cals /\
+                 map c_name cals = names_of num (v_slots num v).
+  Proof.
+    exact (cal_roundtrip_models num num0 sc_int sc_real sc_cx sc_name sc_type int_rt cx_accepted name_text type_rt
+             cls rd val_cx real_rt cx_rt).
+  Qed.
+
+  (* cal_roundtrip_exact: at VNACAL_MAX_PRECISION or at least 17 digits for both precisions the
+     loaded values ARE the saved values (cal_same), and the only conditions are on the stored
+     container (wf_container_stored: the stored frequencies are non-negative and strictly ascending) *)
+  Theorem cal_roundtrip_exact : forall v : container num,
+    exact_prec max_precision (v_fprec num v) = true -> exact_prec max_precision (v_dprec num v) = true ->
+    wf_container_stored num cls v ->
+    exists cals, load save_vline (Some (save_doc num num0 sc_int sc_real sc_cx sc_name sc_type v)) = Ok cals /\
+                 Forall2 (cal_same num num0 cls val_cx) (live num (v_slots num v)) cals /\
+                 map c_name cals = names_of num (v_slots num v).
+  Proof.
+    exact (cal_roundtrip_exact_models num num0 sc_int sc_real sc_cx sc_name sc_type int_rt cx_accepted name_text type_rt
+             max_precision cls rd val_cx real_rt cx_rt num_rt).
+  Qed.
+
+  (* emit_parse_terms: for every type and ALL rows, columns >= 0 the data entry of one frequency
+     written by add_error_parameters is parsed back to the term vector, cell for cell, every cell
+     defined (vectors, matrices, the '~' diagonal, the UE14 / E12 column packing).  Induction on the
+     loops; the bounded computation is kept as Example emit_parse_terms_dims_upto4. *)
+  Theorem emit_parse_terms : forall fp dp t mr mc (c : scal num) findex f, 0 <= mr -> 0 <= mc ->
+    readable (fclass num sc_real fp f) = true ->
+    let ly := mk_layout t mr mc in
+    parse_entries 1 ly None [save_entry num num0 sc_real sc_cx fp dp ly c findex f]
+    = Ok [(xf_of (fclass num sc_real fp f), loaded_cells num sc_cx dp ly (e_at num num0 c findex))]
+    /\ cells_defined (l_terms ly) (loaded_cells num sc_cx dp ly (e_at num num0 c findex)) = true.
+  Proof. exact (emit_parse_entry num num0 sc_real sc_cx cx_accepted). Qed.
+
+  (* the global property sub-tree is handed to the importer unchanged (its own round trip is C14) *)
+  Theorem save_doc_global_properties : forall v : container num,
+    match save_doc num num0 sc_int sc_real sc_cx sc_name sc_type v with
+    | NM pairs => doc_gprops pairs = match v_props num v with Some p => [p] | None => [] end
+    | _ => False
+    end.
+  Proof. exact (save_doc_gprops num num0 sc_int sc_real sc_cx sc_name sc_type). Qed.
+End NumberText.
+Print Assumptions save_load_doc.
+Print Assumptions cal_roundtrip.
+Print Assumptions cal_roundtrip_exact.
+Print Assumptions emit_parse_terms.
+Print Assumptions save_doc_global_properties.
+
+(* the hypotheses of the Section are satisfiable and the theorems not vacuous: a toy number type
+   discharges all of them; a container with a hole, a TE10 1x2 with two frequencies and an E12 2x1
+   with a property sub-tree round-trips through the theorem *)
+Theorem cal_roundtrip_satisfiable :
+  exists cals, load save_vline (Some Toy.saved) = Ok cals /\
+               Forall2 (cal_equiv Toy.num false Toy.cls Toy.rd Toy.val_cx 6 1000) [Toy.te10; Toy.e12] cals /\
+               map c_name cals = ["a"; "b"]%string.
+Proof. exact Toy.box_roundtrip. Qed.
+Print Assumptions cal_roundtrip_satisfiable.
